@@ -273,6 +273,15 @@ func runC17(c *ctx, r *Report) error {
 			}
 			globOracle(r, pat, m.mode == "ref", m.errs, named)
 		}
+		// the documented syntax has no line breaks anywhere, and ref names no space, TAB, ~ ^ : — also inside [...]
+		if len(pathErrs) == 0 && strings.ContainsAny(pat, "\r\n") {
+			r.finding("class-member-unchecked", "a pattern containing a line break is accepted (characters inside [...] are not checked)",
+				Case{Op: "glob path", Input: map[string]string{"pattern_hex": hx(pat), "pattern": strconv.Quote(pat)}})
+		}
+		if len(refErrs) == 0 && strings.ContainsAny(pat, " \t~^:\r\n") {
+			r.finding("class-member-unchecked", "a ref filter containing a character that is invalid in ref names (space, TAB, ~, ^, :, line break) is accepted (characters inside [...] are not checked)",
+				Case{Op: "glob ref", Input: map[string]string{"pattern_hex": hx(pat), "pattern": strconv.Quote(pat)}})
+		}
 		if len(refErrs) == 0 && len(pathErrs) != 0 {
 			r.finding("ref-not-path", "pattern accepted as ref filter but rejected as path filter",
 				Case{Op: "glob ref⊆path", Input: map[string]string{"pattern_hex": hx(pat), "pattern": strconv.Quote(pat)}, Note: pathErrs[0].Error()})
